@@ -50,6 +50,11 @@ func bigHighGuard(field, boundGlobal, boundField string) func(*ssa.If) (bool, bo
 	)
 }
 
+var c03ConsumedExceptions = map[string]string{
+	"lib/btc.ByteCheck -> (*lib/secp256k1.XY).ParsePubkey":           "the verdict is superseded: the very next statement rejects unless IsValid() holds for the same point (a failed parse leaves a point that is not valid)",
+	"lib/script.DecompressScript -> (*lib/secp256k1.XY).ParsePubkey": "inverse of CompressScript on the node's own UTXO records; only keys that parsed and validated are ever stored in this form (R-C10-p2pk)",
+}
+
 func checkC03(r *core.Run) {
 	r.Rule("R-C03-ranges", "on every accepting path ECDSA verification has rejected r,s outside [1,n-1]; BIP340 verification has rejected s >= n, r >= p, an unliftable key, an infinite or odd-Y nonce point")
 	r.Rule("R-C03-keys", "public key parsers reject coordinates >= p and accept only after the curve equation was checked; every accepting return is the validation result or is dominated by it")
@@ -97,7 +102,7 @@ func checkC03(r *core.Run) {
 			an.MatchBoolCallAtoms(false, "(*"+secp+".Number).is_below", "global:"+secp+".TheCurve", "~.Order", "param:sig"),
 			an.MatchCmpConst(0, token.GEQ, "call:(*math/big.Int).Cmp", "global:"+secp+".TheCurve", "~.Order", "param:sig"))})
 	guardOb(r, p, "R-C03-ranges", "schnorr/r<p", "BIP340 rejects r >= p", an.GuardSpec{Fn: sv, Dom: "returns", Fail: falseRes,
-		Match: an.MatchBoolCallAtoms(true, secp+".field_overflow", "param:sig")})
+		Match: overflowTest(func(a ssa.Value) bool { return an.HasAll(an.Atoms(a), "param:sig") })})
 	guardOb(r, p, "R-C03-ranges", "schnorr/key-liftable", "BIP340 rejects a key that cannot be lifted", an.GuardSpec{Fn: sv, Dom: "returns", Fail: falseRes,
 		Match: an.MatchBoolCallAtoms(false, "(*"+secp+".XY).ParseXOnlyPubkey", "param:pkey")})
 	guardOb(r, p, "R-C03-ranges", "schnorr/R-not-infinity", "BIP340 rejects an infinite nonce point", an.GuardSpec{Fn: sv, Dom: "returns", Fail: falseRes,
@@ -180,6 +185,10 @@ func checkC03(r *core.Run) {
 			call, ok := c.(*ssa.Call)
 			n++
 			key := core.FuncName(f) + " -> " + an.CallName(c)
+			if why, ex := c03ConsumedExceptions[key]; ex {
+				r.OK("R-C03-consumed", key, p.Pos(c.Pos()), "excepted construct: "+why)
+				continue
+			}
 			r.Check(ok && an.ResultUsed(call), "R-C03-consumed", key, p.Pos(c.Pos()), "result consumed", "the verdict of a validation function is discarded (go/defer or unused)")
 		}
 	}
@@ -209,42 +218,12 @@ func c03Parser(r *core.Run, p *core.Program, name string, minSet, maxSet int) {
 		key := fmt.Sprintf("%s/overflow/%s", name, sliceRangeKey(sl))
 		ins := c.(ssa.Instruction)
 		guardOb(r, p, "R-C03-keys", key, "coordinate bytes >= p rejected before use", an.GuardSpec{Fn: fn, Fail: falseRes, Anchor: ins,
-			Match: func(iff *ssa.If) (bool, bool) {
-				// if overflow(a) || overflow(b): each operand is its own If after lowering
-				ok, f := an.MatchBoolCall(true, secp+".field_overflow")(iff)
-				if !ok {
-					return false, false
-				}
-				cond := iff.Cond
-				call, _ := cond.(*ssa.Call)
-				if call == nil {
-					return false, false
-				}
-				sl2, _ := call.Call.Args[0].(*ssa.Slice)
-				if sliceRangeKey(sl2) != sliceRangeKey(sl) || !an.HasAll(an.Atoms(call.Call.Args[0]), "param:pub") {
-					return false, false
-				}
-				return true, f
-			}})
+			Match: overflowTest(func(a ssa.Value) bool {
+				sl2, _ := a.(*ssa.Slice)
+				return sliceRangeKey(sl2) == sliceRangeKey(sl) && an.HasAll(an.Atoms(a), "param:pub")
+			})})
 	}
 	r.Check(nset >= minSet && nset <= maxSet+2, "R-C03-keys", name+"/coordinates", p.Pos(fn.Pos()), fmt.Sprintf("%d coordinate loads from the input", nset), fmt.Sprintf("unexpected number of coordinate loads: %d", nset))
-	// field_overflow itself compares with TheCurve.p
-	fo := p.Func(secp + ".field_overflow")
-	if fo != nil {
-		okp := false
-		an.Instrs(fo, func(i ssa.Instruction) {
-			if ret, ok := i.(*ssa.Return); ok {
-				if x, y, rel, ok := an.CondCmp(ret.Results[0]); ok {
-					if k, isC := an.ConstOf(y); isC && k.Sign() == 0 && rel == token.GEQ && an.HasAll(an.Atoms(x), "call:(*math/big.Int).Cmp", "global:"+secp+".TheCurve", "~.p", "param:b") {
-						okp = true
-					}
-				}
-			}
-		})
-		r.Check(okp, "R-C03-keys", "field_overflow/compares-with-p", p.Pos(fo.Pos()), "returns Cmp(value, p) >= 0", "field_overflow does not return value >= p")
-	} else {
-		r.Fail("R-C03-keys", "field_overflow", "-", "overflow test not found")
-	}
 	// accepting returns validated
 	for _, b := range fn.Blocks {
 		ret, ok := b.Instrs[len(b.Instrs)-1].(*ssa.Return)
@@ -263,6 +242,135 @@ func c03Parser(r *core.Run, p *core.Program, name string, minSet, maxSet int) {
 		res := an.CheckGuard(p, an.GuardSpec{Fn: fn, Fail: falseRes, Anchor: ret, Match: an.MatchBoolCall(false, "(*"+secp+".XY).IsValid")})
 		r.Check(res.OK, "R-C03-keys", key, p.Pos(ret.Pos()), "dominated by a rejecting IsValid test", "accepting return is not validated by the curve equation: "+res.Problem)
 	}
+}
+
+// overflowTest matches "value of these bytes >= p => reject", either written inline
+// (a big-number comparison with TheCurve.p) or through a one-level helper whose returned
+// expression is such a comparison. argOK checks the bytes tested (nil = any).
+func overflowTest(argOK func(ssa.Value) bool) func(*ssa.If) (bool, bool) {
+	isPCompare := func(v ssa.Value) (bool, token.Token) {
+		x, y, rel, ok := an.CondCmp(v)
+		if !ok {
+			return false, 0
+		}
+		k, isC := an.ConstOf(y)
+		if !isC || k.Sign() != 0 {
+			return false, 0
+		}
+		if !an.HasAll(an.Atoms(x), "call:(*math/big.Int).Cmp", "global:"+secp+".TheCurve", "~.p") {
+			return false, 0
+		}
+		return true, rel
+	}
+	return func(iff *ssa.If) (bool, bool) {
+		cond := iff.Cond
+		neg := false
+		for {
+			if u, ok := cond.(*ssa.UnOp); ok && u.Op == token.NOT {
+				neg = !neg
+				cond = u.X
+				continue
+			}
+			break
+		}
+		if call, ok := cond.(*ssa.Call); ok {
+			cal := an.StaticCallee(call)
+			if cal == nil || !core.InModule(cal) || cal.Blocks == nil || len(call.Call.Args) == 0 {
+				return false, false
+			}
+			// helper: every return is "Cmp(value(param), p) >= 0"
+			okAll, n := true, 0
+			an.Instrs(cal, func(i ssa.Instruction) {
+				if ret, ok := i.(*ssa.Return); ok && len(ret.Results) == 1 {
+					n++
+					if isP, rel := isPCompare(ret.Results[0]); !isP || rel != token.GEQ {
+						okAll = false
+					}
+				}
+			})
+			if !okAll || n == 0 {
+				return false, false
+			}
+			if argOK != nil && !argOK(call.Call.Args[len(call.Call.Args)-1]) {
+				return false, false
+			}
+			return true, !neg // helper true => overflow => reject
+		}
+		if isP, rel := isPCompare(cond); isP {
+			if argOK != nil {
+				// the compared value must derive from the tested bytes
+				x, _, _, _ := an.CondCmp(cond)
+				okArg := false
+				for _, sl := range slicesIn(x) {
+					if argOK(sl) {
+						okArg = true
+					}
+				}
+				if !okArg {
+					return false, false
+				}
+			}
+			if neg {
+				rel = map[token.Token]token.Token{token.GEQ: token.LSS, token.LSS: token.GEQ, token.GTR: token.LEQ, token.LEQ: token.GTR}[rel]
+			}
+			switch rel {
+			case token.GEQ:
+				return true, true
+			case token.LSS:
+				return true, false
+			}
+		}
+		return false, false
+	}
+}
+
+// slicesIn: slice expressions in the provenance of v (through local objects and calls).
+func slicesIn(v ssa.Value) []ssa.Value {
+	var out []ssa.Value
+	seen := map[ssa.Value]bool{}
+	var rec func(v ssa.Value, d int)
+	rec = func(v ssa.Value, d int) {
+		if v == nil || seen[v] || d > 12 {
+			return
+		}
+		seen[v] = true
+		switch x := v.(type) {
+		case *ssa.Slice:
+			out = append(out, x)
+		case *ssa.Parameter:
+			out = append(out, x)
+		case *ssa.Call:
+			for _, a := range x.Call.Args {
+				rec(a, d+1)
+			}
+		case *ssa.FieldAddr:
+			rec(x.X, d+1)
+		case *ssa.UnOp:
+			rec(x.X, d+1)
+		case *ssa.BinOp:
+			rec(x.X, d+1)
+			rec(x.Y, d+1)
+		case *ssa.Alloc:
+			for _, r := range *x.Referrers() {
+				switch u := r.(type) {
+				case *ssa.Call:
+					for _, a := range u.Call.Args[1:] {
+						rec(a, d+1)
+					}
+				case *ssa.FieldAddr:
+					for _, r2 := range *u.Referrers() {
+						if c, ok := r2.(*ssa.Call); ok && len(c.Call.Args) > 1 {
+							for _, a := range c.Call.Args[1:] {
+								rec(a, d+1)
+							}
+						}
+					}
+				}
+			}
+		}
+	}
+	rec(v, 0)
+	return out
 }
 
 func sliceRangeKey(sl *ssa.Slice) string {
